@@ -25,7 +25,13 @@ claim("C01", "type-specialised SCCP over every pair of set representations (disp
       "dropped); (R01d) stored rows of two relations are only combined under explicit column projectors. Member arithmetic inside one "
       "representation (Count, Where, Has on colliding keys) is value-level and not decided.", NOTE, "DESIGN.md §3 C01")
 
-for pid in ["C02","C03","C04","C05","C07","C09","C10","C11","C12","C13","C15","C16","C17","C18","C19","C20"]:
+claim("C03", "interprocedural slice/map ownership analysis over go/ssa (flow-sensitive local cells, per-field result summaries, VTA-resolved calls)",
+      "Decides the mechanism the property names (slice/map aliasing): (R03a) no append, element store, copy destination, in-place sort, map update "
+      "or delete - directly or by passing to a parameter the callee mutates - acts on a slice or map that may alias storage reachable from an "
+      "existing value, anywhere in the module (570 sinks). Covers every history at once because it is a property of each write site, not of a run. "
+      "frozen's persistent maps/sets are trusted; mutation through Export() by a host program is outside.", NOTE, "DESIGN.md §3 C03")
+
+for pid in ["C02","C04","C05","C07","C09","C10","C11","C12","C13","C15","C16","C17","C18","C19","C20"]:
     na(pid, "check under construction in this session (see DESIGN.md §3); not claimed until its rules are registered")
 na("C14", "agreement of a hand-written array matcher with strings/bytes over all sequences is a relation between runtime values computed by "
           "loops with data-dependent indices; no sound structural clause with teeth exists (DESIGN.md §3 C14)")
